@@ -71,13 +71,21 @@ pub const TEMPLATES: &[&str] = &[
     "clean-preprocessor",
     "clean-preprocessor-flip",
     "clean-single",
+    "clean-inheritance-cross-file",
+    "clean-alias-chain",
+    "clean-forward-refs",
     "warn-deprecated",
     "warn-doc",
     "warn-spread",
+    "warn-deprecated-cross-file",
+    "warn-doc-cross-file",
     "err-syntax",
     "err-attribute",
     "err-unresolved",
     "err-cycle",
+    "err-cycle-cross-file",
+    "err-alias-cycle",
+    "err-unresolved-cross-file",
     "err-redefinition",
     "err-redefinition-cross-file",
     "err-rule",
@@ -181,6 +189,63 @@ pub fn instantiate(template: &'static str, rng: &mut Rng) -> Program {
             p.files.push(f("w3.slice", format!("module Spread{u}::Three\n\nstruct Use3 {{ a: Spread{u}::Old1 }}\n/// {{@link Missing2}}\nstruct D3 {{}}\n\n{}", filler(rng, "Three", fill))));
             p.class = Class::WarnOnly(6);
             p.lints = vec!["Deprecated", "Deprecated", "Deprecated", "Deprecated", "BrokenDocLink", "BrokenDocLink"];
+        }
+        "clean-inheritance-cross-file" => {
+            p.files.push(f("base.slice", format!("module Svc{u}\n\ninterface Base {{\n    ping()\n    idempotent name() -> string\n}}\n")));
+            p.files.push(f("mid.slice", format!("module Svc{u}\n\ninterface Mid : Base {{\n    mid(x: int32) -> int32\n}}\ninterface Side : Base {{\n    side()\n}}\n")));
+            p.files.push(f("leaf.slice", format!("module Svc{u}::Impl\n\ninterface Leaf : Svc{u}::Mid, Svc{u}::Side {{\n    leaf(tag(1) o: string?)\n}}\n\n{}", filler(rng, "Impl", fill))));
+        }
+        "clean-alias-chain" => {
+            // aliases of aliases across files, resolved whatever the parse order
+            p.files.push(f("t1.slice", format!("module Al{u}\n\ntypealias A1 = A2\nstruct Uses {{ a: A1, b: Sequence<A3> }}\n")));
+            p.files.push(f("t2.slice", format!("module Al{u}\n\ntypealias A2 = A3\ntypealias A3 = Dictionary<string, Target>\n")));
+            p.files.push(f("t3.slice", format!("module Al{u}\n\nstruct Target {{ v: varuint62 }}\n[cs::type(\"X\")] typealias A4 = A1\n\n{}", filler(rng, "Al", fill))));
+        }
+        "clean-forward-refs" => {
+            // six files, each referring to the next: whichever order they come in, everything resolves
+            for i in 0..6 {
+                let next = if i < 5 { format!("n: Fw{u}::M{}::S{}?", i + 1, i + 1) } else { "n: int32".to_owned() };
+                p.files.push(f(&format!("fw{i}.slice"), format!("module Fw{u}::M{i}\n\nstruct S{i} {{ {next}, tag(1) label: string? }}\n")));
+            }
+        }
+        "warn-doc-cross-file" => {
+            // doc links into other files: valid ones resolve in any order, broken ones warn in any order
+            p.files.push(f("api.slice", format!("module Dc{u}\n\n/// See {{@link Model::Item}} and {{@link Model::Missing}}.\n/// @see Model::Item\ninterface Api {{\n    /// @param i: the {{@link Model::Item}}\n    /// @throws: never\n    put(i: Model::Item)\n}}\n")));
+            p.files.push(f("model.slice", format!("module Dc{u}::Model\n\n/// Used by {{@link Dc{u}::Api}} and {{@link Dc{u}::Nothing}}.\nstruct Item {{ id: int32 }}\n\n{}", filler(rng, "Model", fill))));
+            p.class = Class::WarnOnly(3);
+            p.lints = vec!["BrokenDocLink", "BrokenDocLink", "MalformedDocComment"];
+        }
+        "err-alias-cycle" => {
+            p.files.push(f("a1.slice", format!("module Ac{u}\n\ntypealias X = Y\nstruct UsesX {{ x: X }}\n")));
+            p.files.push(f("a2.slice", format!("module Ac{u}\n\ntypealias Y = Z\n")));
+            p.files.push(f("a3.slice", format!("module Ac{u}\n\ntypealias Z = X\n")));
+            p.class = Class::Error;
+            p.codes = vec![];
+        }
+        "err-unresolved-cross-file" => {
+            // every file is fine on its own; one reference only resolves if another module were in scope
+            p.files.push(f("u1.slice", format!("module Un{u}::A\n\nstruct InA {{ v: int32 }}\n")));
+            p.files.push(f("u2.slice", format!("module Un{u}::B\n\nstruct InB {{ a: InA }}\n")));
+            p.files.push(f("u3.slice", format!("module Un{u}\n\nstruct Top {{ a: A::InA, b: B::InB }}\n")));
+            p.class = Class::Error;
+            p.codes = vec!["E033"];
+        }
+        "warn-deprecated-cross-file" => {
+            // one deprecated entity used from several files, one of which allows the lint for itself
+            p.files.push(f("shapes.slice", format!("module Geo{u}\n\n[deprecated(\"use Point3\")]\nstruct Point2 {{ x: int32, y: int32 }}\nstruct Point3 {{ x: int32, y: int32, z: int32 }}\nstruct Box2 {{ a: Point2, b: Point2 }}\n")));
+            p.files.push(f("paths.slice", format!("module Geo{u}::Paths\n\nstruct Path {{ points: Sequence<Geo{u}::Point2> }}\n\n{}", filler(rng, "Paths", fill))));
+            p.files.push(f("compat.slice", format!("[[allow(Deprecated)]]\nmodule Geo{u}::Compat\n\nstruct Legacy {{ p: Geo{u}::Point2, q: Geo{u}::Point2 }}\n")));
+            p.files.push(f("users.slice", format!("module Geo{u}::Users\n\ninterface Plotter {{\n    plot(p: Geo{u}::Point2) -> Geo{u}::Point3\n}}\n")));
+            p.class = Class::WarnOnly(4);
+            p.lints = vec!["Deprecated", "Deprecated", "Deprecated", "Deprecated"];
+        }
+        "err-cycle-cross-file" => {
+            // a containment cycle whose members live in different files, plus a user outside the cycle in a third
+            p.files.push(f("order.slice", format!("module Shop{u}\n\nstruct Order {{ id: int32, who: Customer }}\nstruct Receipt {{ o: Order }}\n")));
+            p.files.push(f("customer.slice", format!("module Shop{u}\n\nstruct Customer {{ name: string, home: Address }}\n")));
+            p.files.push(f("address.slice", format!("module Shop{u}\n\nstruct Address {{ street: string, owner: Customer }}\n\n{}", filler(rng, "Shop", fill))));
+            p.class = Class::Error;
+            p.codes = vec!["E032"];
         }
         "err-syntax" => {
             p.files.push(f("good.slice", format!("module Good{u}\nstruct G {{ a: int32 }}\n{}", filler(rng, "Good", fill))));
